@@ -27,7 +27,7 @@ type Gate struct {
 	once sync.Once
 }
 
-func NewGate() *Gate { return &Gate{ch: make(chan struct{})} }
+func NewGate() *Gate  { return &Gate{ch: make(chan struct{})} }
 func (g *Gate) Open() { g.once.Do(func() { close(g.ch) }) }
 func (g *Gate) IsOpen() bool {
 	select {
